@@ -1,0 +1,83 @@
+//! Verification hook (only compiled with `--cfg lora_rs_verif`): read-only snapshot of the
+//! channel plan state. Adds no behaviour.
+use super::*;
+
+#[derive(Debug, Clone, PartialEq)]
+pub struct ChannelSnapshot {
+    pub frequency: u32,
+    pub datarates: u8,
+    pub dl_frequency: Option<u32>,
+}
+
+#[derive(Debug, Clone, PartialEq)]
+pub struct JoinChannelsSnapshot {
+    pub max_retries: usize,
+    pub num_retries: usize,
+    pub preferred_subband: Option<u8>,
+    pub available: [u8; 9],
+    pub available_previous: Option<u8>,
+    pub previous_channel: u8,
+}
+
+#[derive(Debug, Clone, PartialEq)]
+pub enum RegionSnapshot {
+    Dynamic { channels: [Option<ChannelSnapshot>; 16], mask: [u8; 9] },
+    Fixed { mask: [u8; 9], join_channels: JoinChannelsSnapshot },
+}
+
+impl Configuration {
+    pub fn verif_snapshot(&self) -> RegionSnapshot {
+        match &self.state {
+            #[cfg(feature = "region-as923-1")]
+            State::AS923_1(s) => s.verif_snapshot(),
+            #[cfg(feature = "region-as923-2")]
+            State::AS923_2(s) => s.verif_snapshot(),
+            #[cfg(feature = "region-as923-3")]
+            State::AS923_3(s) => s.verif_snapshot(),
+            #[cfg(feature = "region-as923-4")]
+            State::AS923_4(s) => s.verif_snapshot(),
+            #[cfg(feature = "region-au915")]
+            State::AU915(s) => s.0.verif_snapshot(),
+            #[cfg(feature = "region-eu868")]
+            State::EU868(s) => s.verif_snapshot(),
+            #[cfg(feature = "region-eu433")]
+            State::EU433(s) => s.verif_snapshot(),
+            #[cfg(feature = "region-in865")]
+            State::IN865(s) => s.verif_snapshot(),
+            #[cfg(feature = "region-us915")]
+            State::US915(s) => s.0.verif_snapshot(),
+        }
+    }
+
+    /// `get_rx_datarate` of the region (pure table lookup), for exhaustive enumeration.
+    pub fn verif_rx_datarate(&self, tx_dr: DR, rx1_dr_offset: u8, second_window: bool) -> DR {
+        self.get_rx_datarate(tx_dr, rx1_dr_offset, if second_window { &Window::_2 } else { &Window::_1 })
+    }
+
+    /// `(spreading factor, bandwidth Hz, max payload, max payload with dwell time)` of a data rate.
+    pub fn verif_datarate(&self, dr: u8) -> Option<(u32, u32, u8, u8)> {
+        self.get_datarate(dr).map(|d| {
+            (d.spreading_factor.factor(), d.bandwidth.hz(), d.max_mac_payload_size, d.max_mac_payload_size_with_dwell_time)
+        })
+    }
+
+    pub fn verif_check_tx_power(&self, p: u8) -> Option<Option<u8>> {
+        self.check_tx_power(p)
+    }
+
+    pub fn verif_frequency_valid(&self, f: u32) -> bool {
+        self.frequency_valid(f)
+    }
+
+    pub fn verif_rx2_frequency(&self) -> u32 {
+        self.get_rx2_frequency()
+    }
+
+    pub fn verif_default_datarate(&self) -> DR {
+        self.get_default_datarate()
+    }
+
+    pub fn verif_rx1_dr_offset_validate(&self, v: u8) -> Option<u8> {
+        self.rx1_dr_offset_validate(v)
+    }
+}
